@@ -105,8 +105,13 @@ def work(task):
             for s in entry.free_symbols:
                 n = s.name
                 key = f"s_{n}" if n in m.states else (f"p_{n}" if n in m.params else "t")
-                subs[s] = sp.Float(inputs.get(key, 0.0), 30)
-            return float(sp.N(entry.subs(subs), 30))
+                subs[s] = inputs.get(key, 0.0)
+            try:
+                return sympy2smt.numeric(entry, subs)
+            except ValueError as e:
+                if "numeric: sympy node" not in str(e):
+                    raise
+                return float(sp.N(entry.subs({k: sp.Float(v, 30) for k, v in subs.items()}), 30))
         return f
 
     for i, s in enumerate(names):
